@@ -269,7 +269,14 @@ func (rr *reqRun) respFunc(respAny substreams.ResponseFromAnyTier) error {
 	}
 	rr.mu.Lock()
 	defer rr.mu.Unlock()
-	m := Msg{Kind: "other", AfterErr: rr.done}
+	if rr.done {
+		// Tier1Service.Blocks wraps the response function: once the handler has returned, its context is cancelled
+		// under a mutex and every later send is refused (tier1ResponseHandler). VerifBlocks runs below that wrapper,
+		// so the harness refuses the same way; a late send by a goroutine that outlived the request is counted.
+		rr.env.Probe("send_after_return_refused")
+		return context.Canceled
+	}
+	m := Msg{Kind: "other"}
 	switch x := resp.Message.(type) {
 	case *pbsubstreamsrpc.Response_Session:
 		m.Kind = "session"
